@@ -33,6 +33,8 @@ pub fn block_on<F: Future>(f: F) -> F::Output {
             match f.as_mut().poll(&mut cx) {
                 Poll::Ready(v) => return v,
                 Poll::Pending => {
+                    // tasks the code under test may have spawned on the ambient runtime get a turn
+                    rt.block_on(tokio::task::yield_now());
                     polls += 1;
                     if polls > 10_000_000 {
                         panic!("harness: future still pending after 10M polls");
